@@ -869,22 +869,44 @@ func check(prop, tier string, onlyPart string) int {
 			}
 			rf := ReplayFile{Property: prop, Harness: part.Harness, Part: part.Name, Pkg: part.Pkg, Seed: r.Seed, Params: params, Choices: r.Choices, Key: k, Detail: r.Detail}
 			// confirm the unshrunk replay first
-			rr, perr := runReplay(j, rf, false)
-			if perr != "" || !sameClass(rr, k) {
+			// Parts that run an unseedable dependency (go-libp2p-pubsub's goroutines and pools in the
+			// libp2p part of C20) declare replay_attempts > 1: a violation counts as reproducible there
+			// when a replay of the same choices shows the same class within that many attempts.
+			attempts := 1
+			if v, ok := params["replay_attempts"].(float64); ok && v > 1 {
+				attempts = int(v)
+			}
+			var rr Result
+			var perr string
+			reproduced := false
+			for a := 0; a < attempts && !reproduced; a++ {
+				rr, perr = runReplay(j, rf, false)
+				reproduced = perr == "" && sameClass(rr, k)
+			}
+			if !reproduced {
 				fatal2("violation %q of %s (seed %d) did not reproduce from its own choice log (%s %s %s): tool trouble, not reported as a violation", k, prop, r.Seed, perr, rr.Outcome, rr.Key)
 			}
 			sb, sa := 90*time.Second, 300
 			if tier == "thorough" {
 				sb, sa = 240*time.Second, 1200
 			}
-			rf = shrink(j, rf, k, sb, sa)
-			fr, perr := runReplay(j, rf, true)
-			if perr != "" || !sameClass(fr, k) {
+			if attempts == 1 {
+				rf = shrink(j, rf, k, sb, sa)
+			}
+			var fr Result
+			reproduced = false
+			for a := 0; a < attempts && !reproduced; a++ {
+				fr, perr = runReplay(j, rf, true)
+				reproduced = perr == "" && sameClass(fr, k)
+			}
+			if !reproduced {
 				fatal2("minimised replay of %q did not reproduce (%s): tool trouble", k, perr)
 			}
-			fr2, _ := runReplay(j, rf, false)
-			if fr2.LogHash != fr.LogHash && !fr.crashed {
-				fatal2("minimised replay of %q is not deterministic (event log hashes %s vs %s): tool trouble", k, fr.LogHash, fr2.LogHash)
+			if attempts == 1 {
+				fr2, _ := runReplay(j, rf, false)
+				if fr2.LogHash != fr.LogHash && !fr.crashed {
+					fatal2("minimised replay of %q is not deterministic (event log hashes %s vs %s): tool trouble", k, fr.LogHash, fr2.LogHash)
+				}
 			}
 			rf.LogHash = fr.LogHash
 			rf.Detail = fr.Detail
